@@ -180,7 +180,8 @@ def check_exit(ex: Exec, C: FnContract, env0, outcome, result: V, exc, res: FnRe
         env['raised'] = e
         st.trace.append('exit:raise(%s)' % exc.origin)
         matches = []
-        for rc in C.raises:
+        body_raises = [rc for rc in C.raises if not rc.caller_only]
+        for rc in body_raises:
             names = (rc.cls,) if isinstance(rc.cls, str) else rc.cls
             m = z3.Or(*[smt.issub(smt.tag(e.term), smt.CLASSES[n]) for n in names])
             if rc.when is not None:
@@ -190,11 +191,13 @@ def check_exit(ex: Exec, C: FnContract, env0, outcome, result: V, exc, res: FnRe
             matches.append(m)
         ex.oblige('raises', 'only_declared', z3.Or(*matches) if matches else z3.BoolVal(False), ('raises',),
                   meta={'origin': exc.origin})
-        for rc, m in zip(C.raises, matches):
+        for rc, m in zip(body_raises, matches):
             for cl in rc.ensures:
                 ex.oblige('raises:' + rc.label, cl.label, z3.Implies(m, ex.spec_bool(cl.expr, env)), cl.tags or rc.tags)
     for cl in C.exits_ensure:
         ex.oblige('exit', cl.label, ex.spec_bool(cl.expr, env), cl.tags)
+    if C.exit_hook is not None:
+        C.exit_hook(ex, outcome, result, exc)
     if C.cancel_must_propagate:
         # a CancelledError delivered to this task at one of its suspension points must leave the function as CancelledError
         ok = True
@@ -209,5 +212,12 @@ def check_exit(ex: Exec, C: FnContract, env0, outcome, result: V, exc, res: FnRe
         for cl in I.inv:
             ex.oblige('inv@exit', cl.label, ex.spec_bool(cl.expr, env), cl.tags)
     ex.check_frame('exit', env)
+    for key, v1 in sorted(ex.st.ctx.items()):
+        if key in C.ctx_modifies:
+            continue
+        v0 = ex.entry['ctx'].get(key)
+        if v0 is None or v0.term is v1.term or (z3.is_expr(v0.term) and z3.is_expr(v1.term) and v0.term.eq(v1.term)):
+            continue
+        ex.oblige('frame@exit', 'ctx:' + key, ex.eq(v0, v1), ('frame',))
     if ex.ch.fresh_part and (len(res.canaries) < 3 or (len(res.canaries) < 6 and not any(c.name.endswith(outcome) for c in res.canaries))):
         res.canaries.append(Obligation('%s/canary:%s' % (C.key, outcome), st.pc, z3.BoolVal(False), ('canary',), {'trace': list(st.trace)}))
